@@ -95,7 +95,7 @@ def run(name, tier, seed, opts, pid):
         'checker_cmd': cmd,
         'wall_s': time.time() - t0,
     }
-    if d['cases'] == 0:
+    if d['cases'] == 0 and not failures:
         res['status'] = 'vacuous'
         res['detail'] = 'bounded check %s evaluated zero cases' % name
     return res
